@@ -4,9 +4,18 @@ import (
 	"bytes"
 	"fmt"
 	"reflect"
+	"strings"
 
 	"github.com/go-gts/gts"
+	"github.com/go-gts/gts/seqio"
 )
+
+func maxInt(a, b int) int {
+	if a > b {
+		return a
+	}
+	return b
+}
 
 func init() {
 	props["C02"] = runC02
@@ -439,6 +448,133 @@ func runC03(o *Out) {
 				}
 				res := o.Run("seq_slice", true, "seq_slice", seqSx(hs), itoa(s), itoa(e))
 				checkSliceSeq(o, hs, s, e, res)
+			}
+		}
+	}
+	runC03Metadata(o)
+}
+
+// runC03Metadata: coordinate-bearing metadata follows a slice: the result is
+// linear, and REFERENCE base ranges are clipped to the window, re-based,
+// dropped when disjoint and renumbered consecutively.
+func runC03Metadata(o *Out) {
+	L := 40
+	type rg struct{ a, b int }
+	mkInfo := func(word string, rs []rg) string {
+		parts := make([]string, len(rs))
+		for i, r := range rs {
+			parts[i] = fmt.Sprintf("%d to %d", r.a, r.b)
+		}
+		return fmt.Sprintf("(%s %s)", word, strings.Join(parts, "; "))
+	}
+	nrec := 60
+	if o.Tier == "thorough" {
+		nrec = 1500
+	}
+	for k := 0; k < nrec; k++ {
+		mol := []gts.Molecule{gts.DNA, gts.AA, gts.RNA}[o.Rng.Intn(3)]
+		var refs []seqio.Reference
+		var ranges [][]rg
+		nref := 1 + o.Rng.Intn(5)
+		for i := 0; i < nref; i++ {
+			var rs []rg
+			for j, n := 0, 1+o.Rng.Intn(3); j < n; j++ {
+				a := 1 + o.Rng.Intn(L)
+				b := a + o.Rng.Intn(L-a+1)
+				rs = append(rs, rg{a, b})
+			}
+			info := mkInfo(mol.Counter(), rs)
+			switch o.Rng.Intn(9) {
+			case 0:
+				info, rs = "(sites)", nil // not a base range: kept as it is
+			case 1:
+				info, rs = "", nil
+			case 2:
+				info, rs = mkInfo("bases", []rg{{9, 3}}), nil // reversed range: does not parse, kept
+			}
+			refs = append(refs, seqio.Reference{Number: i + 1, Info: info, Title: fmt.Sprintf("t%d", i)})
+			ranges = append(ranges, rs)
+		}
+		gb := seqio.GenBank{Fields: seqio.GenBankFields{LocusName: "R", Molecule: mol, Topology: gts.Topology(o.Rng.Intn(2)), References: refs},
+			Origin: seqio.NewOrigin(letters(L))}
+		var refSxs []string
+		for _, r := range refs {
+			refSxs = append(refSxs, refSx(r))
+		}
+		// windows: around every range edge, the whole sequence, empty, wrap-around
+		wins := []rg{{0, L}, {0, 0}, {5, 5}, {L, L}, {3, 17}, {L - 6, 4}, {-10, -2}}
+		for _, rs := range ranges {
+			for _, r := range rs {
+				wins = append(wins, rg{r.a - 1, r.b}, rg{r.b, L}, rg{0, r.a - 1}, rg{r.b - 1, r.b + 3}, rg{r.a - 2, r.a})
+			}
+		}
+		for wi, w := range wins {
+			if w.a < -L || w.b > L || w.a > L || w.b < -L {
+				continue
+			}
+			if o.Tier != "thorough" && wi >= 7 && (wi+k)%3 != 0 {
+				continue
+			}
+			caseLine := fmt.Sprintf("slice-metadata refs=%d window=[%d,%d) mol=%s", nref, w.a, w.b, mol)
+			seq, ok := safeSeq(func() gts.Sequence { return gts.Slice(gb, w.a, w.b) })
+			if !ok {
+				o.Violate("slice-panics", caseLine, "")
+				continue
+			}
+			info, isGB := seq.Info().(seqio.GenBankFields)
+			if !isGB {
+				o.Violate("slice-loses-metadata", caseLine, "")
+				continue
+			}
+			if info.Topology != gts.Linear {
+				o.Violate("slice-not-linear", caseLine, fmt.Sprintf("topology %v", info.Topology))
+			}
+			// forward windows: the reference handling against the model and the property
+			s, e := w.a, w.b
+			if s < 0 {
+				s += L
+			}
+			if e < 0 {
+				e += L
+			}
+			if e < s {
+				continue
+			}
+			got := o.Run("refs-slice", true, "refs_slice", hxs(string(mol)), itoa(s), itoa(e), "("+strings.Join(refSxs, " ")+")")
+			var gotRefs []string
+			for _, r := range info.References {
+				gotRefs = append(gotRefs, refSx(r))
+			}
+			if got != "ok ("+strings.Join(gotRefs, " ")+")" {
+				o.Violate("slice-references-differ-from-Fields.Slice", caseLine, "")
+			}
+			// the property, computed here from the ranges
+			var want []string
+			for i, rs := range ranges {
+				if rs == nil {
+					want = append(want, refs[i].Title+"|"+refs[i].Info)
+					continue
+				}
+				var parts []string
+				for _, r := range rs {
+					lo, hi := maxInt(r.a-1, s), minInt(r.b, e)
+					if lo < hi {
+						parts = append(parts, fmt.Sprintf("%d to %d", lo-s+1, hi-s))
+					}
+				}
+				if len(parts) > 0 {
+					want = append(want, refs[i].Title+"|"+fmt.Sprintf("(%s %s)", mol.Counter(), strings.Join(parts, "; ")))
+				}
+			}
+			var have []string
+			for i, r := range info.References {
+				have = append(have, r.Title+"|"+r.Info)
+				if r.Number != i+1 {
+					o.Violate("references-not-renumbered", caseLine, fmt.Sprintf("reference %d has number %d", i+1, r.Number))
+				}
+			}
+			if strings.Join(have, "\n") != strings.Join(want, "\n") {
+				o.Violate("reference-ranges", caseLine, fmt.Sprintf("got %q want %q", have, want))
 			}
 		}
 	}
